@@ -31,7 +31,7 @@ ASSUMPTIONS = ["display_binary_tree() is treated as public API (TreeModel); if i
 REAL_VS_STUB = {"real": ["torchsde.BrownianInterval/BrownianPath/BrownianTree/ReverseBrownian", "trampoline",
                          "numpy SeedSequence", "torch kernels"],
                 "stub": ["value cache wrapped by FaultyCache (forwarding)", "np.random.randint (entropy seam)"]}
-PROBES = ("chen_triple", "chen_triple_U", "zero_len", "antisym", "levy_fold_multi", "levy_fold_3plus", "path_model_answers",
+PROBES = ("misc_ops", "chen_triple", "chen_triple_U", "zero_len", "antisym", "levy_fold_multi", "levy_fold_3plus", "path_model_answers",
           "path_model_multicell", "point_form", "reverse_mirror", "refined_mid_history", "tiny_cache", "tol_grid",
           "supplied_W", "whole_equals_supplied")
 STATE_MEASURE = "distinct final interval-tree shapes (hash of display_binary_tree dump)"
@@ -228,7 +228,8 @@ def run_case(case, keep_log=False):
     t0, t1 = xf(cfg["t0"]), xf(cfg["t1"])
     try:
         for i, op in enumerate(case["ops"]):
-            if bm.apply_env(op):
+            if bm.apply_env(op, ex):
+                probes["misc_ops"] += int(op["op"] == "misc")
                 continue
             td0 = getattr(built.interval, "_tree_dt", None) if built.interval is not None else None
             if op["op"] == "point":
